@@ -8,7 +8,7 @@
 //verif:shard VerifC12aBestConn 9
 //verif:obligation C12.a connection choice over every set of <= 3 connections to a peer with symbolic closed / limited / relayed-transport flags and stream counts: bestConnToPeer never returns a closed connection, returns a limited one only if every open connection is limited, and nil iff none is open; Connectedness is Connected iff an open unlimited connection exists, Limited iff none but an open limited one; under force-direct bestAcceptableConnToPeer never returns a connection over a relay transport
 //verif:obligation C12.b Swarm.NewStream / Conn.NewStream: a stream is opened over a limited connection only if the caller allowed limited connections; otherwise the call waits for a direct connection and fails if none appears; with NoDial and no connection it fails with ErrNoConn; a stream reported as opened was opened on the connection chosen
-//verif:obligation C12.c waitForDirectConn: a waiter parked behind a limited connection is woken by every direct connection admitted for that peer (also when the limited connection has gone meanwhile and the direct one is the peer's only connection) and then returns that direct connection; without one it gives up at the dial timeout, removes itself from the waiter list and returns an error; it never returns a limited connection
+//verif:obligation C12.c waitForDirectConn: a waiter parked behind a limited connection is woken by every direct connection admitted for that peer (also when the limited connection has gone meanwhile and the direct one is the peer's only connection) and then returns that direct connection; without one it gives up at the dial timeout, removes itself from the waiter list and returns an error; it never returns a limited connection; a direct connection admitted exactly while a caller is between looking at the existing connections and registering as a waiter (window held open at Conn.Stat, where waitForDirectConn stops between the two) is not missed: the caller gets it instead of timing out
 //verif:bound <= 3 connections per peer, stream counts 0..2, one waiter, one NewStream call (retry loop unwound 3 times)
 //verif:stub transport.CapableConn / Transport / resource manager / peerstore stubs; dialPeer, Conn.openAndAddStream, Conn.start and the connection-events emitter hooked; timers fire only when every goroutine is blocked (time passes when nothing else can happen)
 //verif:outside waiter wake-up races under real preemption, several concurrent waiters, hole-punch protocol exchange, relay address filtering in addrsForDial
@@ -250,4 +250,46 @@ func VerifC12cWaitForDirect() {
 	if got != nil {
 		vAssert(!got.conn.(*vC12tc).limited, "a limited connection is never handed to a caller that did not allow it")
 	}
+}
+
+// A direct connection that is admitted exactly while a caller is on its way into the wait - after it has
+// looked at the existing connections, before it is registered as a waiter - must not be missed. The window is
+// held open deterministically (also natively) by keeping the limited connection's stream table locked, which
+// is where waitForDirectConn stops between the two steps (Conn.Stat).
+func VerifC12cDirectArrivesWhileRegistering() {
+	vDeadlockIsViolation()
+	s := vC12swarm()
+	VerifHook_Conn_start = func(c *Conn) {}
+	VerifHook_connectionEventsEmitter_AddConn = func(e *connectionEventsEmitter, c *Conn) {}
+	defer func() { VerifHook_Conn_start, VerifHook_connectionEventsEmitter_AddConn = nil, nil }()
+	lim := vC12conn(s, false, true, true, 0)
+	s.conns.m[vC12peer] = []*Conn{lim}
+	ctx := network.WithDialPeerTimeout(context.Background(), 300*time.Millisecond)
+	settle := func() {
+		for i := 0; i < 25; i++ {
+			vYield()
+		}
+	}
+	lim.streams.Lock() // somebody is opening or listing streams on the relayed connection
+	var got *Conn
+	var gerr error
+	done := make(chan struct{})
+	go func() {
+		got, gerr = s.waitForDirectConn(ctx, vC12peer)
+		close(done)
+	}()
+	settle()
+	var direct *Conn
+	added := false
+	go func() {
+		direct, _ = s.addConn(&vC12tc{tpt: &vC12tpt{}, p: vC12peer}, network.DirInbound)
+		added = true
+	}()
+	settle()
+	lim.streams.Unlock()
+	<-done
+	settle()
+	vAssert(added && direct != nil, "the direct connection is admitted")
+	vAssert(gerr == nil && got == direct, "a direct connection admitted while the caller is entering the wait is not missed")
+	vAssert(len(s.directConnNotifs.m[vC12peer]) == 0, "no waiter registration is left behind")
 }
